@@ -331,6 +331,8 @@ def seq_kind(x):
         return "bytes"
     if isinstance(x, str):
         return "str"
+    if type(x).__name__ == "SymByteArray":
+        return "bytes"
     return None
 
 
@@ -341,6 +343,8 @@ def seq_items(x):
         return list(x)
     if isinstance(x, str):
         return [ord(c) for c in x]
+    if type(x).__name__ == "SymByteArray":
+        return list(x.items)
     raise TypeError("expected bytes/str-like, got %r" % type(x))
 
 
